@@ -101,10 +101,21 @@ Proof.
   unfold mainchain_tx_pool__IntrinsicGas__if_byt_ne_0, go_neqb. f_equal.
   destruct (N.eqb_spec b 0); destruct (Z.eqb_spec (Z.of_N b) 0); try reflexivity; lia.
 Qed.
-Lemma src_ig_nz_overflow q nz : mainchain_tx_pool__IntrinsicGas__if_math_MaxUint64_minus_gas_div_nonZeroGas_lt_nz q nz = (q <? nz).
-Proof. reflexivity. Qed.
+Lemma src_ig_nz_overflow gas k nz : in_range U64 gas -> 0 < k ->
+  mainchain_tx_pool__IntrinsicGas__if_math_MaxUint64_minus_gas_div_nonZeroGas_lt_nz gas k nz
+  = ((max_u64 - gas) / k <? nz).
+Proof.
+  intros H Hk. unfold mainchain_tx_pool__IntrinsicGas__if_math_MaxUint64_minus_gas_div_nonZeroGas_lt_nz,
+    go_quot, go_sub, max_u64, two64. unfold in_range in H.
+  rewrite (wrap_id U64 (18446744073709551615 - gas)) by (unfold in_range; lia).
+  rewrite Z.quot_div_nonneg by lia.
+  rewrite wrap_id; [reflexivity|]. unfold in_range.
+  pose proof (Z.div_pos (18446744073709551615 - gas) k ltac:(lia) Hk).
+  pose proof (Z.div_le_upper_bound (18446744073709551615 - gas) k (18446744073709551615 - gas) Hk). nia.
+Qed.
 Lemma src_ig_nz_overflow_atoms :
-  mainchain_tx_pool__IntrinsicGas__if_math_MaxUint64_minus_gas_div_nonZeroGas_lt_nz_atoms = ["(math.MaxUint64 - gas) / nonZeroGas : uint64"; "nz : uint64"]%string.
+  mainchain_tx_pool__IntrinsicGas__if_math_MaxUint64_minus_gas_div_nonZeroGas_lt_nz_atoms
+  = ["gas : uint64"; "nonZeroGas : uint64"; "nz : uint64"]%string.
 Proof. reflexivity. Qed.
 Lemma src_ig_gas1 gas nz k : mainchain_tx_pool__IntrinsicGas__set_gas_op gas nz k = wrapu64 (gas + wrapu64 (nz * k)).
 Proof. reflexivity. Qed.
@@ -169,7 +180,7 @@ Definition C09_source_tie_statement : Prop :=
   /\ (forall g r, mainchain_blockchain__StateTransition_refundGas__set_gas_op g r = wrapu64 (g + r))
   /\ (forall pool a, in_range U64 pool -> in_range U64 a -> types__GasPool_AddGas__if_uint64_mul_gp_gt_math_MaxUint64_minus_amount pool a = (max_u64 - a <? pool))
   /\ (forall pool a, types__GasPool_AddGas__assign_op pool a = wrapu64 (pool + a))
-  /\ (forall q nz, mainchain_tx_pool__IntrinsicGas__if_math_MaxUint64_minus_gas_div_nonZeroGas_lt_nz q nz = (q <? nz))
+  /\ (forall gas k nz, in_range U64 gas -> 0 < k -> mainchain_tx_pool__IntrinsicGas__if_math_MaxUint64_minus_gas_div_nonZeroGas_lt_nz gas k nz = ((max_u64 - gas) / k <? nz))
   /\ (forall gas nz k, mainchain_tx_pool__IntrinsicGas__set_gas_op gas nz k = wrapu64 (gas + wrapu64 (nz * k)))
   /\ (forall gas z, in_range U64 gas -> mainchain_tx_pool__IntrinsicGas__if_math_MaxUint64_minus_gas_div_configs_TxDataZeroGas_lt_z gas z = ((max_u64 - gas) / tx_data_zero_gas <? z))
   /\ (forall gas z, mainchain_tx_pool__IntrinsicGas__set_gas_op_2 gas z = wrapu64 (gas + wrapu64 (z * tx_data_zero_gas)))
